@@ -1,0 +1,7 @@
+//go:build !verif
+
+package sched
+
+// verifPoint marks a schedule point of the executor.  Without the `verif` build tag it is
+// an empty, inlinable method.
+func (e *ThreadPoolExecutor) verifPoint(name string) {}
